@@ -64,7 +64,8 @@ fn frame_quads(case: &Value) -> Vec<Value> {
 // ------------------------------------------------------------------ random datasets (L3)
 
 const REPS: &[(&str, &[&str])] = &[
-    ("a", &["a", "Z", "x", "k", "h", "p"]), ("n", &["n"]), ("0", &["0", "7"]), (":", &[":"]), ("Q", &["\""]), ("B", &["\\"]),
+    // ordinary characters: letters and punctuation that has no role in N-Triples / N-Quads / Turtle literals
+    ("a", &["a", "Z", "x", "k", "h", "p", "{", "|", "}", "{|", "|}", "{| a |}", ";", ",", "(", ")", "'", "=", "+", "-", "!", "*", "/", "?", "&", "%", "$", "~", "[", "]"]), ("n", &["n"]), ("0", &["0", "7"]), (":", &[":"]), ("Q", &["\""]), ("B", &["\\"]),
     ("L", &["\n"]), ("C", &["\r"]), ("T", &["\t"]), ("S", &[" "]), ("<", &["<"]), (">", &[">"]), ("_", &["_"]), ("#", &["#"]),
     (".", &["."]), ("^", &["^"]), ("@", &["@"]), ("e", &["\u{e9}", "\u{df}", "\u{65e5}"]), ("v", &["\u{2713}", "\u{1F600}", "\u{feff}"]),
     ("w", &["\u{a0}", "\u{2028}", "\u{85}"]),
